@@ -78,7 +78,9 @@ func testCert() tls.Certificate {
 //
 // Names of the form "s<N>[o].size.test." request a response of about N bytes
 // (with an OPT record of its own when the "o" is present); "nowrite..." makes
-// the handler write nothing; "err..." makes it return an error.
+// the handler write nothing; "err..." makes it return an error; "badresp..."
+// makes it write a response that cannot be packed and return the writer's
+// error (plain DNS and DoT only: the other servers pack after the handler).
 type pipeline struct {
 	mu    sync.Mutex
 	calls int
@@ -132,6 +134,8 @@ func answerFor(q dns.Question) (rcode int, an, ns, ex []dns.RR, ownOPT bool, mod
 			return 0, nil, nil, nil, false, "nowrite"
 		case strings.HasPrefix(labels[0], "err"):
 			return 0, nil, nil, nil, false, "err"
+		case strings.HasPrefix(labels[0], "badresp"):
+			return 0, nil, nil, nil, false, "errwrite"
 		case len(labels) >= 3 && labels[len(labels)-2] == "size" && strings.HasPrefix(labels[0], "s"):
 			var size int
 			spec := labels[0][1:]
@@ -243,6 +247,18 @@ func (p *pipeline) ServeDNS(ctx context.Context, rw dnsserver.ResponseWriter, re
 		return nil
 	case "err":
 		return fmt.Errorf("pipeline: simulated failure for %s", q.Name)
+	case "errwrite":
+		// A response that cannot be put on the wire (a character string of
+		// more than 255 octets): the writers of the datagram and stream
+		// servers fail, and the handler passes their error on.
+		bad := &dns.Msg{}
+		bad.SetReply(req)
+		bad.Answer = append(bad.Answer, &dns.TXT{
+			Hdr: dns.RR_Header{Name: q.Name, Rrtype: dns.TypeTXT, Class: dns.ClassINET, Ttl: 60},
+			Txt: []string{strings.Repeat("x", 300)},
+		})
+
+		return rw.WriteMsg(ctx, req, bad)
 	}
 
 	resp := &dns.Msg{}
